@@ -258,8 +258,8 @@ def register_traversals(R):
     for fn, second in (('on_premerge_impl', P.node('into', 'ConfigNode')), ('on_preprocess_impl', P.val('builder', 'any'))):
         R.add(Contract(C + 'ComposedNode.ayns.' + fn, [P.node('self', 'ComposedNode'), P.path('path'), second], name='traversal-convention',
                        modifies=anyall(NODEF), raises=[Raises('Exception')], result=P.node('result', 'ConfigNode', maybe_fresh=True), props=('C16', 'C06'),
-                       opts={'use': {C + 'ComposedNode.ayns.map_nodes': 'abstract'}, 'watch': {C + 'ComposedNode.ayns.map_nodes': 'C16+C06.children-visited-with-their-full-paths'},
-                             'gates': {'C16+C06.children-visited-with-their-full-paths': gate_traverse}, 'no_search': True, 'verify_only': True, 'no_frame': True,
+                       opts={'use': {C + 'ComposedNode.ayns.map_nodes': 'abstract'}, 'watch': {C + 'ComposedNode.ayns.map_nodes': 'C05+C16+C06.children-visited-with-their-full-paths'},
+                             'gates': {'C05+C16+C06.children-visited-with-their-full-paths': gate_traverse}, 'no_search': True, 'verify_only': True, 'no_frame': True,
                              'skip_kinds': ('pre', 'safety')},
                        note='call convention of the traversal only'))
 
